@@ -28,6 +28,7 @@ def jobs():
         jobs_keyfile.register_t1(_JOBS)
         jobs_keyfile.register_t1b(_JOBS)
         jobs_keyfile.register_setbool(_JOBS)
+        jobs_keyfile.register_plainget(_JOBS)
         from . import jobs_parser
         jobs_parser.register(_JOBS)
         from . import jobs_merge
